@@ -264,13 +264,18 @@ RightHint(m, r) ==
 DisabledIds(m) == {a.id : a \in {x \in ViewAttrs(m) : ~x.a}}
 SharedIds(m) == {a.id : a \in {x \in ViewAttrs(m) : \E y \in ViewAttrs(m) : y # x /\ y.id = x.id}}
 DisUpdAfter(ev) == IF ev.op = "update" /\ ev.res = "ok" /\ Has(ev, "mpkv") THEN DisabledIds(ev.mpkv) ELSE disUpd
+\* identifier carried by two different attributes over the history (the F-ALIAS cause, on identifiers)
+AliasedId(i) == Cardinality({u \in DOMAIN ids : ids[u] = i}) > 1
+RightCause(r) == IF \E j \in 1..Len(r) : AliasedId(r[j]) THEN "alias" ELSE "none"
 PublishedDisabledViol(ev) ==
     IF Has(ev, "mpkv") /\ ev.res = "ok" /\ ev.op \in {"update", "rekey", "prune", "mpk"}
     THEN LET dis == DisUpdAfter(ev) \cap DisabledIds(ev.mpkv)
              hits == {i \in 1..Len(ev.mpkv.keys) : \E j \in 1..Len(ev.mpkv.keys[i].r) : ev.mpkv.keys[i].r[j] \in dis}
          IN IF hits # {}
             THEN {Vio({"C06"}, "a public key publishes a right involving an attribute disabled before the last update",
-                      IF \E i \in hits : \E j \in 1..Len(ev.mpkv.keys[i].r) : ev.mpkv.keys[i].r[j] \in SharedIds(ev.mpkv) THEN "alias" ELSE "none",
+                      \* (shared now, or shared earlier in the history: the other attribute may have been deleted since the update)
+                      IF \E i \in hits : \E j \in 1..Len(ev.mpkv.keys[i].r) :
+                             ev.mpkv.keys[i].r[j] \in SharedIds(ev.mpkv) \/ AliasedId(ev.mpkv.keys[i].r[j]) THEN "alias" ELSE "none",
                       <<ev.op, {ev.mpkv.keys[i].r : i \in hits}>>)}
             ELSE {}
     ELSE {}
@@ -287,9 +292,6 @@ StaleRightsViol(ev) ==
             ELSE {}
     ELSE {}
 
-\* identifier carried by two different attributes over the history (the F-ALIAS cause, on identifiers)
-AliasedId(i) == Cardinality({u \in DOMAIN ids : ids[u] = i}) > 1
-RightCause(r) == IF \E j \in 1..Len(r) : AliasedId(r[j]) THEN "alias" ELSE "none"
 
 FlavourViol(g2, ev) ==
     LET m == ViewMsk(ev)
